@@ -1,6 +1,6 @@
 (* Properties_C07.v — C07: format then parse returns the instant: the
    component inverses (each unbounded) *)
-From CCTZ Require Import Base SrcConstants Cal CivilImpl PosixImpl ZoneLoad FormatImpl ParseImpl FmtSpec FmtProofs ParseProofs.
+From CCTZ Require Import Base SrcConstants Cal CivilImpl PosixImpl ZoneLoad FormatImpl ParseImpl FmtSpec ParseProofs.
 Local Open Scope Z_scope.
 
 (* a continuation that cannot extend a number *)
